@@ -470,6 +470,9 @@ class EvalError(Exception):
     pass
 
 
+EQ_TOL = [0.0]  # relative tolerance used when evaluating eq numerically (set by numeric_search for goals)
+
+
 def evalf(t: T, env: Dict[str, float], cache: Optional[dict] = None, fns: Optional[dict] = None):
     """Evaluate a term with floats (used by the concretiser and for cover checks)."""
     if cache is None:
@@ -535,7 +538,10 @@ def _eval1(x: T, env, cache, fns):
         if op == "le":
             return g(x.args[0]) <= g(x.args[1])
         if op == "eq":
-            return g(x.args[0]) == g(x.args[1])
+            a_, b_ = g(x.args[0]), g(x.args[1])
+            if EQ_TOL[0] and isinstance(a_, float) or isinstance(b_, float):
+                return abs(a_ - b_) <= EQ_TOL[0] * (1.0 + abs(a_) + abs(b_))
+            return a_ == b_
         if op == "iff":
             return bool(g(x.args[0])) == bool(g(x.args[1]))
         if op == "not":
